@@ -586,8 +586,15 @@ namespace pika::util {
         {
             std::string entry = sec->get_entry(entryname, defaultvaluestr);
             char* endptr = nullptr;
+            if (entry.empty()) { return defaultvalue; }
             std::ptrdiff_t val = std::strtoll(entry.c_str(), &endptr, /*base:*/ 0);
-            return endptr != entry.c_str() ? val : defaultvalue;
+            if (endptr == entry.c_str() || *endptr != '\0')
+            {
+                PIKA_THROW_EXCEPTION(pika::error::bad_parameter,
+                    "runtime_configuration::init_stack_size",
+                    "invalid value \"{}\" for configuration entry pika.stacks.{}", entry, entryname);
+            }
+            return val;
         }
         return defaultvalue;
     }
